@@ -38,8 +38,19 @@ def _run_cli(cmd, text, timeout):
         os.unlink(path)
 
 
-def check(assertions, timeout_s=60, fallbacks=True, tactic=None):
-    """-> dict(verdict, model, backend, seconds, tried)"""
+def _eval_terms(m, terms):
+    out = {}
+    for k, t in (terms or {}).items():
+        try:
+            v = m.eval(t, model_completion=True)
+            out[k] = str(v)
+        except Exception:
+            pass
+    return out
+
+
+def check(assertions, timeout_s=60, fallbacks=True, tactic=None, eval_terms=None):
+    """-> dict(verdict, model, backend, seconds, tried); eval_terms: {name: z3 term} evaluated in a counter-model"""
     t0 = time.time()
     tried = []
     s = z3.Solver() if tactic is None else z3.Tactic(tactic).solver()
@@ -50,7 +61,8 @@ def check(assertions, timeout_s=60, fallbacks=True, tactic=None):
     if r == z3.unsat:
         return dict(verdict='unsat', model=None, backend=Z3_VERSION, seconds=time.time() - t0, tried=tried)
     if r == z3.sat:
-        return dict(verdict='sat', model=model_dict(s.model()), z3model=s.model(), backend=Z3_VERSION,
+        md = model_dict(s.model()); md.update(_eval_terms(s.model(), eval_terms))
+        return dict(verdict='sat', model=md, z3model=s.model(), backend=Z3_VERSION,
                     seconds=time.time() - t0, tried=tried)
     if fallbacks:
         text = _smt2(assertions)
@@ -65,7 +77,8 @@ def check(assertions, timeout_s=60, fallbacks=True, tactic=None):
                 # model is re-derived with the python API under a longer budget so it can be replayed
                 s2 = z3.Solver(); s2.set('timeout', int(timeout_s * 2000)); s2.add(*assertions)
                 if s2.check() == z3.sat:
-                    return dict(verdict='sat', model=model_dict(s2.model()), z3model=s2.model(), backend=name,
+                    md = model_dict(s2.model()); md.update(_eval_terms(s2.model(), eval_terms))
+                    return dict(verdict='sat', model=md, z3model=s2.model(), backend=name,
                                 seconds=time.time() - t0, tried=tried)
                 return dict(verdict='sat', model={}, backend=name, seconds=time.time() - t0, tried=tried)
     return dict(verdict='unknown', model=None, backend='none', seconds=time.time() - t0, tried=tried,
